@@ -144,6 +144,62 @@ def extract():
 
 HOOKS = []
 
+def extract_hcu():
+    f = "glonax-runtime/src/driver/net/hydraulic.rs"
+    add("hcuStatusPgn", const(f, "STATUS_PGN"), "hydraulic.rs STATUS_PGN")
+    m = one(f, r"const\s+BANK_PGN_LIST\s*:\s*\[PGN;\s*2\]\s*=\s*\[\s*PGN::Other\(([0-9_]+)\)\s*,\s*PGN::Other\(([0-9_]+)\)\s*\]", "BANK_PGN_LIST")
+    add("hcuBankPgn0", num(m.group(1)), "hydraulic.rs BANK_PGN_LIST[0]")
+    add("hcuBankPgn1", num(m.group(2)), "hydraulic.rs BANK_PGN_LIST[1]")
+    add("hcuBankSlots", const(f, "BANK_SLOTS"), "hydraulic.rs BANK_SLOTS")
+    # ActuatorMessage::to_frame priority and MotionConfigMessage::to_frame PGN / priority
+    b = body_of(f, r"impl\s+ActuatorMessage\s*\{", "impl ActuatorMessage")
+    m = re.search(r"fn\s+to_frame.*?\.priority\(\s*([0-9]+)\s*\)", b, re.S)
+    if not m:
+        raise ExtractError("hydraulic.rs: ActuatorMessage::to_frame priority")
+    add("hcuActuatorPriority", num(m.group(1)), "ActuatorMessage::to_frame priority")
+    b = body_of(f, r"impl\s+MotionConfigMessage\s*\{", "impl MotionConfigMessage")
+    m = re.search(r"fn\s+to_frame.*?IdBuilder::from_pgn\(PGN::(\w+)\)\s*\.priority\(\s*([0-9]+)\s*\)", b, re.S)
+    if not m:
+        raise ExtractError("hydraulic.rs: MotionConfigMessage::to_frame pgn/priority")
+    add("hcuMotionConfigPgn", pgn_number(m.group(1)), "MotionConfigMessage::to_frame PGN::" + m.group(1))
+    add("hcuMotionConfigPriority", num(m.group(2)), "MotionConfigMessage::to_frame priority")
+    # Actuator discriminants
+    for v, n in enum_discriminants("glonax-runtime/src/core/motion.rs", "Actuator"):
+        add(f"actuator{v}", n, "core/motion.rs enum Actuator")
+    for name in ["MOTION_TYPE_STOP_ALL", "MOTION_TYPE_RESUME_ALL", "MOTION_TYPE_RESET_ALL", "MOTION_TYPE_STRAIGHT_DRIVE", "MOTION_TYPE_CHANGE", "MOTION_MAX_CHANGE_SET_COUNT"]:
+        add(camel(name), const("glonax-runtime/src/core/motion.rs", name), "core/motion.rs " + name)
+    # vecraft state bytes (State::to_byte)
+    b = body_of("glonax-runtime/src/driver/net/vecraft.rs", r"pub\s+fn\s+to_byte\(self\)\s*->\s*u8", "vecraft State::to_byte")
+    for m in re.finditer(r"State::(\w+)\s*=>\s*(0x[0-9a-fA-F]+|[0-9]+)", b):
+        add("vecraftState" + m.group(1), num(m.group(2)), "vecraft.rs State::to_byte")
+
+
+def camel(name):
+    parts = name.lower().split("_")
+    return parts[0] + "".join(p.capitalize() for p in parts[1:])
+
+
+_PGN_TABLE = None
+
+
+def pgn_number(variant):
+    """Number of a named j1939::PGN variant, read from the j1939 crate source in the cargo registry
+    (vendored dependency, not part of /repo; version pinned by Cargo.lock)."""
+    global _PGN_TABLE
+    if _PGN_TABLE is None:
+        import glob
+        cands = sorted(glob.glob(os.path.expanduser("~/.cargo/registry/src/*/j1939-0.1.*/src/pgn.rs")))
+        if not cands:
+            raise ExtractError("j1939 crate source not found in the cargo registry")
+        t = open(cands[-1], encoding="utf-8").read()
+        _PGN_TABLE = {m.group(1): num(m.group(2)) for m in re.finditer(r"PGN::(\w+)\s*=>\s*([0-9_]+)\s*,", t)}
+    if variant not in _PGN_TABLE:
+        raise ExtractError(f"PGN::{variant} not in the j1939 crate table")
+    return _PGN_TABLE[variant]
+
+
+HOOKS.append(extract_hcu)
+
 
 def main():
     try:
